@@ -15,14 +15,25 @@ inductive StreamsAgree : List Tok → List Tok → Prop
   | nil : StreamsAgree [] []
   | cons {a b : Tok} {os fs : List Tok} : tokEq a b → StreamsAgree os fs → StreamsAgree (a :: os) (b :: fs)
 
+theorem StreamsAgree.length_eq {o f : List Tok} (h : StreamsAgree o f) : o.length = f.length := by
+  induction h with
+  | nil => rfl
+  | cons _ _ ih => simp [ih]
+
+/-- The self-check answers `[]` exactly when the collapsed streams agree. -/
 theorem sanityLoop_ok_iff : ∀ (o f : List Tok) (i : Nat),
-    sanityLoop i o f = .ok ↔ ∃ f1 f2, f = f1 ++ f2 ∧ StreamsAgree o f1 := by
+    sanityLoop i o f = .ok ↔ StreamsAgree o f := by
   intro o
   induction o with
   | nil =>
     intro f i
-    simp only [sanityLoop, true_iff]
-    exact ⟨[], f, rfl, StreamsAgree.nil⟩
+    cases f with
+    | nil => simp only [sanityLoop, true_iff]; exact StreamsAgree.nil
+    | cons b fs =>
+      simp only [sanityLoop]
+      constructor
+      · intro h; cases h
+      · intro h; cases h
   | cons a os ih =>
     intro f i
     cases f with
@@ -30,20 +41,16 @@ theorem sanityLoop_ok_iff : ∀ (o f : List Tok) (i : Nat),
       simp only [sanityLoop]
       constructor
       · intro h; cases h
-      · rintro ⟨f1, f2, h, hag⟩
-        cases hag with
-        | cons _ _ => simp at h
+      · intro h; cases h
     | cons b fs =>
       simp only [sanityLoop]
       split
       · rename_i hne
         constructor
         · intro h; cases h
-        · rintro ⟨f1, f2, h, hag⟩
+        · intro hag
           cases hag with
           | cons hab _ =>
-            simp only [List.cons_append, List.cons.injEq] at h
-            obtain ⟨rfl, _⟩ := h
             rcases hne with h1 | h1
             · exact absurd hab.1 h1
             · exact absurd hab.2 h1
@@ -53,18 +60,80 @@ theorem sanityLoop_ok_iff : ∀ (o f : List Tok) (i : Nat),
           exact heq
         rw [ih fs (i + 1)]
         constructor
-        · rintro ⟨f1, f2, rfl, hag⟩
-          exact ⟨b :: f1, f2, rfl, StreamsAgree.cons hab hag⟩
-        · rintro ⟨f1, f2, h, hag⟩
+        · intro hag; exact StreamsAgree.cons hab hag
+        · intro hag
           cases hag with
-          | cons _ hrest =>
-            simp only [List.cons_append, List.cons.injEq] at h
-            exact ⟨_, f2, h.2, hrest⟩
+          | cons _ hrest => exact hrest
 
-theorem StreamsAgree.length_eq {o f : List Tok} (h : StreamsAgree o f) : o.length = f.length := by
-  induction h with
-  | nil => rfl
-  | cons _ _ ih => simp [ih]
+/-- Position `j` is the first one at which the streams differ: they agree before it and
+both have a token at `j`, which the self-check regards as different. -/
+def FirstDiff (o f : List Tok) (j : Nat) : Prop :=
+  ∃ o1 a o2 f1 b f2, o = o1 ++ a :: o2 ∧ f = f1 ++ b :: f2 ∧ StreamsAgree o1 f1 ∧
+    o1.length = j ∧ ¬ tokEq a b
+
+/-- The self-check answers "Symbol k differs" exactly for the first differing position. -/
+theorem sanityLoop_differs_iff : ∀ (o f : List Tok) (i k : Nat),
+    sanityLoop i o f = .differs k ↔ ∃ j, k = i + j ∧ FirstDiff o f j := by
+  intro o
+  induction o with
+  | nil =>
+    intro f i k
+    constructor
+    · intro h; cases f <;> simp [sanityLoop] at h
+    · rintro ⟨j, _, o1, a, o2, f1, b, f2, ho, _⟩
+      cases o1 <;> simp at ho
+  | cons a os ih =>
+    intro f i k
+    cases f with
+    | nil =>
+      constructor
+      · intro h; simp [sanityLoop] at h
+      · rintro ⟨j, _, o1, a', o2, f1, b, f2, _, hf, _⟩
+        cases f1 <;> simp at hf
+    | cons b fs =>
+      simp only [sanityLoop]
+      split
+      · rename_i hne
+        have hnab : ¬ tokEq a b := by
+          intro hab
+          rcases hne with h1 | h1
+          · exact h1 hab.1
+          · exact h1 hab.2
+        constructor
+        · intro h
+          cases h
+          exact ⟨0, rfl, [], a, os, [], b, fs, rfl, rfl, StreamsAgree.nil, rfl, hnab⟩
+        · rintro ⟨j, hk, o1, a', o2, f1, b', f2, ho, hf, hag, hlen, hn⟩
+          cases hag with
+          | nil =>
+            simp at hlen; subst hlen; simp at hk; subst hk; rfl
+          | cons hab' _ =>
+            simp only [List.cons_append, List.cons.injEq] at ho hf
+            obtain ⟨rfl, _⟩ := ho
+            obtain ⟨rfl, _⟩ := hf
+            exact absurd hab' hnab
+      · rename_i heq
+        have hab : tokEq a b := by
+          simp only [not_or, Decidable.not_not] at heq
+          exact heq
+        rw [ih fs (i + 1) k]
+        constructor
+        · rintro ⟨j, hk, o1, a', o2, f1, b', f2, ho, hf, hag, hlen, hn⟩
+          refine ⟨j + 1, by omega, a :: o1, a', o2, b :: f1, b', f2, ?_, ?_, StreamsAgree.cons hab hag, ?_, hn⟩
+          · simp [ho]
+          · simp [hf]
+          · simp [hlen]
+        · rintro ⟨j, hk, o1, a', o2, f1, b', f2, ho, hf, hag, hlen, hn⟩
+          cases hag with
+          | nil =>
+            simp only [List.nil_append, List.cons.injEq] at ho hf
+            obtain ⟨rfl, _⟩ := ho
+            obtain ⟨rfl, _⟩ := hf
+            exact absurd hab hn
+          | @cons a0 b0 os0 fs0 _ hrest =>
+            simp only [List.cons_append, List.cons.injEq] at ho hf
+            simp only [List.length_cons] at hlen
+            exact ⟨os0.length, by omega, os0, a', o2, fs0, b', f2, ho.2, hf.2, hrest, rfl, hn⟩
 
 mutual
   theorem leaves_content_eq : ∀ (t : Tree), layoutBlank t = true →
